@@ -1,7 +1,200 @@
+/* Linearizability checking of recorded histories (Wing & Gong search with
+ * memoisation on (linearised set, model state)), with pluggable sequential
+ * models.  Time stamps are a global event counter bumped by hist_invoke /
+ * hist_return, which are called from uninstrumented (schedule-atomic) code, so
+ * there are no ties.  NOT instrumented. */
 #include "simint.h"
-void hist_reset(int model, int capacity) { (void)model; (void)capacity; }
-int hist_invoke(int thread, int op, long arg) { (void)thread; (void)op; (void)arg; return 0; }
-void hist_return(int idx, long res) { (void)idx; (void)res; }
-void hist_drop(int idx) { (void)idx; }
-int hist_count(void) { return 0; }
-int hist_check(char* msg, size_t n) { (void)msg; (void)n; return 0; }
+
+#define HMAX 64
+typedef struct {
+  int thread, op;
+  long arg, res;
+  uint64_t inv, ret;
+  int live, done;
+  int overlaps_push, overlaps_any;
+} hop_t;
+static hop_t H[HMAX];
+static int nh, model, capacity;
+static uint64_t hclock;
+
+void hist_reset(int m, int cap) {
+  nh = 0;
+  model = m;
+  capacity = cap;
+  hclock = 0;
+}
+int hist_invoke(int thread, int op, long arg) {
+  if (nh >= HMAX) sim_violation("SIM-history-overflow", "more than %d operations recorded", HMAX);
+  hop_t* h = &H[nh];
+  memset(h, 0, sizeof *h);
+  h->thread = thread;
+  h->op = op;
+  h->arg = arg;
+  h->inv = ++hclock;
+  h->live = 1;
+  return nh++;
+}
+void hist_return(int idx, long res) {
+  H[idx].res = res;
+  H[idx].ret = ++hclock;
+  H[idx].done = 1;
+}
+void hist_drop(int idx) { H[idx].live = 0; }
+int hist_count(void) {
+  int n = 0;
+  for (int i = 0; i < nh; i++) n += H[i].live;
+  return n;
+}
+
+/* ---- sequential models over a small sequence of values ---- */
+typedef struct {
+  long v[HMAX];
+  int n;
+} mstate_t;
+static uint64_t seq_hash(const long* v, int n, int reverse) {
+  uint64_t h = 1469598103934665603ull ^ (uint64_t)n;
+  for (int i = 0; i < n; i++) {
+    long x = reverse ? v[n - 1 - i] : v[i];
+    h = (h ^ (uint64_t)x) * 1099511628211ull;
+  }
+  return h & 0x7fffffffffffffffull;
+}
+uint64_t hist_seq_hash(const long* v, int n) { return seq_hash(v, n, 0); }
+/* apply op to state; returns 1 if the recorded result is what the model allows */
+static int apply(const hop_t* h, mstate_t* s) {
+  switch (model) {
+    case M_FIFO:
+    case M_BFIFO:
+      if (h->op == OP_PUSH || h->op == OP_TRYPUSH) {
+        if (h->res == RES_FAIL) {
+          if (h->op == OP_PUSH) return 0;
+          return (model == M_BFIFO && s->n >= capacity) || h->overlaps_any;
+        }
+        if (model == M_BFIFO && s->n >= capacity) return 0; /* would exceed the capacity */
+        s->v[s->n++] = h->arg;
+        return 1;
+      }
+      if (h->op == OP_POP) {
+        if (h->res == RES_EMPTY) return s->n == 0 || (model == M_FIFO ? h->overlaps_push : h->overlaps_any);
+        if (s->n == 0 || s->v[0] != h->res) return 0;
+        memmove(&s->v[0], &s->v[1], sizeof(long) * (s->n - 1));
+        s->n--;
+        return 1;
+      }
+      return 0;
+    case M_LIFO:
+      if (h->op == OP_PUSH) {
+        s->v[s->n++] = h->arg;
+        return 1;
+      }
+      if (h->op == OP_POP) {
+        if (h->res == RES_EMPTY) return s->n == 0;
+        if (s->n == 0 || s->v[s->n - 1] != h->res) return 0;
+        s->n--;
+        return 1;
+      }
+      return 0;
+    case M_STACK_FLUSH:
+      if (h->op == OP_PUSH) {
+        s->v[s->n++] = h->arg;
+        return 1;
+      }
+      if (h->op == OP_FLUSH_LIFO || h->op == OP_FLUSH_FIFO) {
+        /* lifo flush hands the content newest first, fifo flush oldest first */
+        uint64_t want = seq_hash(s->v, s->n, h->op == OP_FLUSH_LIFO);
+        if ((uint64_t)h->res != want) return 0;
+        s->n = 0;
+        return 1;
+      }
+      return 0;
+  }
+  return 0;
+}
+#define MEMO (1 << 18)
+static uint64_t memo[MEMO];
+static int memo_used;
+static int memo_seen(uint64_t mask, const mstate_t* s) {
+  uint64_t k = (seq_hash(s->v, s->n, 0) * 0x9e3779b97f4a7c15ull) ^ (mask * 0xd1b54a32d192ed03ull);
+  if (!k) k = 1;
+  uint64_t i = (k >> 20) & (MEMO - 1);
+  for (int probe = 0; probe < 64; probe++, i = (i + 1) & (MEMO - 1)) {
+    if (memo[i] == k) return 1;
+    if (!memo[i]) {
+      if (memo_used < MEMO / 2) {
+        memo[i] = k;
+        memo_used++;
+      }
+      return 0;
+    }
+  }
+  return 0;
+}
+static int idx[HMAX], nl;
+static uint64_t search_nodes;
+static int dfs(uint64_t mask, const mstate_t* s) {
+  if (mask == (nl >= 64 ? ~0ull : ((1ull << nl) - 1))) return 1;
+  if (memo_seen(mask, s)) return 0;
+  if (++search_nodes > 4000000) return -1;
+  /* earliest return among not yet linearised operations */
+  uint64_t minret = UINT64_MAX;
+  for (int i = 0; i < nl; i++)
+    if (!(mask >> i & 1) && H[idx[i]].ret < minret) minret = H[idx[i]].ret;
+  for (int i = 0; i < nl; i++) {
+    if (mask >> i & 1) continue;
+    const hop_t* h = &H[idx[i]];
+    if (h->inv > minret) continue; /* some other pending operation returned before this one was invoked */
+    mstate_t t = *s;
+    if (!apply(h, &t)) continue;
+    int r = dfs(mask | (1ull << i), &t);
+    if (r) return r;
+  }
+  return 0;
+}
+static const char* opname(int op) {
+  switch (op) {
+    case OP_PUSH: return "push";
+    case OP_POP: return "pop";
+    case OP_TRYPUSH: return "trypush";
+    case OP_FLUSH_LIFO: return "flush_lifo";
+    case OP_FLUSH_FIFO: return "flush_fifo";
+  }
+  return "?";
+}
+int hist_check(char* msg, size_t msglen) {
+  nl = 0;
+  for (int i = 0; i < nh; i++)
+    if (H[i].live) {
+      if (!H[i].done) {
+        snprintf(msg, msglen, "operation %d (%s) never returned", i, opname(H[i].op));
+        return -1;
+      }
+      idx[nl++] = i;
+    }
+  for (int a = 0; a < nl; a++) {
+    hop_t* x = &H[idx[a]];
+    x->overlaps_push = x->overlaps_any = 0;
+    for (int b = 0; b < nl; b++) {
+      if (a == b) continue;
+      const hop_t* y = &H[idx[b]];
+      if (y->inv < x->ret && y->ret > x->inv) {
+        x->overlaps_any = 1;
+        if (y->op == OP_PUSH || y->op == OP_TRYPUSH) x->overlaps_push = 1;
+      }
+    }
+  }
+  memset(memo, 0, sizeof memo);
+  memo_used = 0;
+  search_nodes = 0;
+  mstate_t s0;
+  s0.n = 0;
+  int r = dfs(0, &s0);
+  sim_probe("lin_search_nodes", search_nodes);
+  if (r == 1) return 0;
+  size_t k = 0;
+  k += snprintf(msg + k, msglen - k, r < 0 ? "linearizability search exhausted its node budget; history: " : "no linearization exists; history (thread:op(arg)->res@[inv,ret]): ");
+  for (int a = 0; a < nl && k + 60 < msglen; a++) {
+    const hop_t* h = &H[idx[a]];
+    k += snprintf(msg + k, msglen - k, "t%d:%s(%ld)->%ld@[%lu,%lu] ", h->thread, opname(h->op), h->arg, h->res, (unsigned long)h->inv, (unsigned long)h->ret);
+  }
+  return r < 0 ? -2 : -1;
+}
